@@ -449,6 +449,60 @@ def _fifo(cls, depth, width=1, **kw):
     return build
 
 
+def _wrapped(kind):
+    """control inserters / domain renamer applied to a module with a submodule and a memory: the transformed design must
+    lower to RTLIL that behaves like the transformed design in simulation"""
+    def build():
+        from amaranth.hdl import Module, Signal, ClockDomain, ResetInserter, EnableInserter, DomainRenamer
+        from amaranth.lib.memory import Memory
+        top = Module()
+        cd = ClockDomain("sync")
+        top.domains.sync = cd
+        other = ClockDomain("other", clk_edge="neg")
+        top.domains.other = other
+        d = Signal(name="d")
+        c = Signal(name="c")
+        core = Module()
+        leaf = Module()
+        cnt = Signal(2, name="cnt", init=1)
+        rl = Signal(2, name="rl", reset_less=True)
+        q = Signal(2, name="q")
+        core.d.sync += cnt.eq(cnt + d)
+        core.d.sync += rl.eq(rl ^ cnt)
+        leaf.d.other += q.eq(cnt)
+        mem = Memory(shape=2, depth=2, init=[2, 1])
+        leaf.submodules.mem = mem
+        wp = mem.write_port(domain="sync")
+        rp = mem.read_port(domain="sync")
+        rdata = Signal(2, name="rdata")
+        leaf.d.comb += [wp.addr.eq(cnt[0]), wp.data.eq(rl), wp.en.eq(d), rp.addr.eq(cnt[1]), rdata.eq(rp.data)]
+        core.submodules.leaf = leaf
+        wrapped = {"reset": lambda m: ResetInserter(c)(m), "enable": lambda m: EnableInserter(c)(m),
+                   "rename": lambda m: DomainRenamer({"sync": "other"})(m),
+                   "enable-reset": lambda m: EnableInserter(c)(ResetInserter(d)(m)),
+                   "reset-dict": lambda m: ResetInserter({"sync": c, "other": d})(m)}[kind](core)
+        top.submodules.core = wrapped
+        return top, [d, c, cd.rst], [cd.clk, other.clk], [cnt, rl, q, rdata]
+    return build
+
+
+def _views():
+    """assignments and reads through data-structure views (the synthesis leg of the data-layout laws)"""
+    from amaranth.hdl import Module, Signal, signed
+    from amaranth.lib import data
+    m = Module()
+    lay = data.StructLayout({"a": 2, "b": signed(2), "u": data.UnionLayout({"x": 2, "y": signed(1)}), "arr": data.ArrayLayout(2, 2)})
+    s = Signal(lay, name="s")
+    xa = Signal(2, name="xa")
+    xb = Signal(signed(2), name="xb")
+    ix = Signal(1, name="ix")
+    o1 = Signal(signed(4), name="o1")
+    o2 = Signal(2, name="o2")
+    o3 = Signal(signed(2), name="o3")
+    m.d.comb += [s.a.eq(xa), s.b.eq(xb), s.u.x.eq(xa ^ 1), s.arr[ix].eq(xa), o1.eq(s.b + s.a), o2.eq(s.arr[~ix]), o3.eq(s.u.y)]
+    return m, [xa, xb, ix], [], [o1, o2, o3, s.as_value()]
+
+
 def _cdc(kind):
     def build():
         from amaranth.hdl import Module, Signal, ClockDomain
@@ -485,9 +539,12 @@ SEQ_DESIGNS = {
     "mem-gran2-w4-comb": _memory(comb_read=True, gran=2, depth=2, width=4, alphabet={"wdata": [0b1111, 0b0110]}),
     "syncfifo-2": _fifo("SyncFIFO", 2), "syncfifo-3": _fifo("SyncFIFO", 3), "syncfifobuf-3": _fifo("SyncFIFOBuffered", 3),
     "asyncfifo-2": _fifo("AsyncFIFO", 2), "ffsync": _cdc("ff"), "asyncffsync": _cdc("asyncff"), "pulsesync": _cdc("pulse"),
+    "wrap-reset": _wrapped("reset"), "wrap-enable": _wrapped("enable"), "wrap-rename": _wrapped("rename"),
+    "wrap-enable-reset": _wrapped("enable-reset"), "wrap-reset-dict": _wrapped("reset-dict"), "data-views": _views,
 }
 QUICK_SEQ = ["counter-pos", "counter-neg", "counter-arst", "counter-arst-neg", "counter-resetless", "counter-hier", "two-domains",
-             "mem-transparent", "mem-nontransparent", "mem-gran1", "mem-combread", "mem-gran2-w4", "mem-gran2-w4-comb", "syncfifo-2", "syncfifobuf-3", "ffsync", "asyncffsync", "pulsesync"]
+             "mem-transparent", "mem-nontransparent", "mem-gran1", "mem-combread", "mem-gran2-w4", "mem-gran2-w4-comb", "syncfifo-2", "syncfifobuf-3", "ffsync", "asyncffsync", "pulsesync",
+             "wrap-reset", "wrap-enable", "wrap-rename", "wrap-enable-reset", "wrap-reset-dict", "data-views"]
 
 
 def _dispatch(t):
@@ -506,7 +563,7 @@ def run(rep):
     shapes2 = G.shapes(2) if not rep.quick else [(0, False), (2, False), (2, True)]
     gen += [("d2", 2, tr, {}) for tr in itertools.product(shapes2, repeat=3)]
     gen.append(("const", 3, ((0, False),) * 3, {}))
-    gen += [("d2c", 3, pair + ((0, False),), {}) for pair in itertools.product(G.shapes(2), repeat=2)]
+    gen += [("d2c", 3, pair + ((0, False),), {"full": not rep.quick}) for pair in itertools.product(shapes2, repeat=2)]
     allgroups = {}
     for groups in pmap(expr_gen, gen, rep.procs, chunksize=4):
         for key, ts in groups.items():
